@@ -49,9 +49,10 @@ def _run(binary, P, check, timeout):
     return bl.run_breadlog(binary, P.config_path, check=check, tmpdir=P.tmp, roots=(), shim=False, timeout=timeout)
 
 
-def _bisect(binary, structured, files, check, timeout, limit=4):
+def _bisect(binary, structured, files, check, timeout, limit=2):
     """Find (up to `limit`) single files that make the run terminate abnormally."""
     culprits = []
+    timeout = max(20, timeout // 6)      # a hang is a hang after 20 s on a handful of tiny files
 
     def bad(subset):
         P = bl.Project(structured=structured, tag="hb")
